@@ -5,7 +5,7 @@
    reference decoding of the successive frames of the consumed input, for every way the input
    arrives (every split into calls, every target alignment, every gap). *)
 From MptV Require Import Base.Mem Base.Tactics Cobs.CobsModel Cobs.DecModel Cobs.EncProofs Cobs.EncTheorems Cobs.DecProofs
-  Cobs.DecCall.
+  Cobs.DecCall Cobs.DecComplete.
 Local Open Scope nat_scope.
 
 (* ---------- the block loop with an accumulator ---------- *)
@@ -659,3 +659,131 @@ Qed.
 
 Lemma cinv_init v gap buf : gap <= length buf -> cinv v [] (dinit gap) buf.
 Proof. intros H. unfold cinv, dinit. cbn [dpos dlen dcurr dmsg dcode Nat.eqb]. repeat split; lia. Qed.
+
+(* ---------- completeness at call level ---------- *)
+Lemma align_post_lt16 off rest proc : align_post off rest proc <= 15.
+Proof.
+  unfold align_post.
+  pose proof (Nat.mod_upper_bound off 16 ltac:(lia)). pose proof (Nat.mod_upper_bound off 8 ltac:(lia)).
+  pose proof (Nat.mod_upper_bound off 4 ltac:(lia)). pose proof (Nat.mod_upper_bound off 2 ltac:(lia)).
+  destruct ((8 <=? rest) && (off mod 16 <=? proc)); [lia|].
+  destruct ((4 <=? rest) && (off mod 8 <=? proc)); [lia|].
+  destruct ((2 <=? rest) && (off mod 4 <=? proc)); [lia|].
+  destruct ((1 <=? rest) && (off mod 2 <=? proc)); lia.
+Qed.
+
+(* the result triple the call builds from a loop result *)
+Definition call_result (buf : list byte) (done2 : nat) (r : lres) : dres * dstate * list byte :=
+  match lr r with
+  | DMsg => (DMsg, mkd 0 0 (done2 + (0 + length (lout r)) + lproc r) done2 (0 + length (lout r))
+                       (Some (0 + length (lout r))), splice buf (done2 + 0) (lout r))
+  | other => (other, mkd (lcode r) (lpos r) (done2 + (0 + length (lout r)) + lproc r) done2 (0 + length (lout r)) None,
+              splice buf (done2 + 0) (lout r))
+  end.
+
+(* a call that starts a new message: which block loop it runs *)
+Lemma dec_regular_fresh v st buf frags res c rest0 :
+  dpos st + dlen st <= dcurr st -> dcurr st <= length buf -> dcode st = 0 ->
+  (dmsg st = Some (dlen st) \/ (dmsg st = None /\ dlen st = 0)) ->
+  skipn (dcurr st) buf = c :: rest0 -> bn c <> 0 ->
+  exists post, post <= 15 /\ post <= dcurr st - (dpos st + dlen st) /\
+    dec_regular_res v st buf frags res false =
+    call_result buf (dpos st + dlen st + post)
+      (dec_loop v false rest0 (bn c) 0 (dcurr st - (dpos st + dlen st) - post + 1) [] 1).
+Proof.
+  intros G1 G2 Hcode Hmsg Hun Hnz. unfold dec_regular_res, call_result. lazy beta iota zeta.
+  set (dl := dpos st + dlen st) in *.
+  destruct (Nat.ltb_spec (dcurr st) dl); [lia|]. destruct (Nat.ltb_spec (length buf) dl); [lia|]. cbn [orb].
+  set (proc0 := dcurr st - dl).
+  destruct (locate frags res dl) as [[rs off] rest].
+  exists (align_post (rs + off) rest proc0).
+  split; [apply align_post_lt16|]. split; [apply align_post_le|].
+  set (post := align_post (rs + off) rest proc0).
+  pose proof (align_post_le (rs + off) rest proc0) as Hpost. fold post in Hpost.
+  assert (Hcurr : dl + post + 0 + (proc0 - post) = dcurr st) by (unfold proc0; lia).
+  destruct Hmsg as [Hm|[Hm Hl0]]; rewrite Hm.
+  - cbn [dcode dlen dpos8 dpos dmsg]. rewrite Nat.sub_diag, Hcode. cbn [Nat.eqb andb].
+    rewrite Hcurr. destruct (Nat.ltb_spec (length buf) (dcurr st)); [lia|].
+    rewrite firstn_all2 by (rewrite skipn_length; lia). rewrite Hun.
+    cbn [dcode dpos8 dpos dlen dmsg Nat.eqb].
+    destruct (Nat.eqb_spec (bn c) 0); [contradiction|]. reflexivity.
+  - rewrite Hl0, Hcode. cbn [Nat.eqb andb dcode dlen dpos8 dpos dmsg].
+    rewrite Hcurr. destruct (Nat.ltb_spec (length buf) (dcurr st)); [lia|].
+    rewrite firstn_all2 by (rewrite skipn_length; lia). rewrite Hun.
+    cbn [dcode dpos8 dpos dlen dmsg Nat.eqb]. rewrite ?Hcode. cbn [Nat.eqb].
+    destruct (Nat.eqb_spec (bn c) 0); [contradiction|]. rewrite ?Hm. reflexivity.
+Qed.
+
+Lemma nozero_split_unique : forall (b1 b2 t1 t2 : list byte),
+  nozero b1 = true -> nozero b2 = true -> b1 ++ 0%N :: t1 = b2 ++ 0%N :: t2 -> b1 = b2 /\ t1 = t2.
+Proof.
+  induction b1 as [|x b1 IH]; intros b2 t1 t2 H1 H2 E.
+  - destruct b2 as [|y b2]; [cbn in E; inversion E; auto|].
+    cbn [app] in E. inversion E; subst. rewrite nozero_cons in H2. cbn in H2. discriminate.
+  - destruct b2 as [|y b2].
+    + cbn [app] in E. inversion E; subst. rewrite nozero_cons in H1. cbn in H1. discriminate.
+    + cbn [app] in E. inversion E; subst. rewrite nozero_cons in H1, H2.
+      apply andb_prop in H1. apply andb_prop in H2.
+      destruct (IH b2 t1 t2 (proj2 H1) (proj2 H2) H3) as [-> ->]. auto.
+Qed.
+
+(* COMPLETENESS of one call: the decoder is between messages, the unread input starts with a
+   frame the reference decoder accepts, and the gap exceeds the frame length by 16 (alignment
+   may skip up to 15 bytes): the call delivers exactly that message and consumes exactly the
+   frame, whatever follows it, for every fragment geometry *)
+Theorem dec_call_complete v st buf frags res body m tl :
+  dpos st + dlen st <= dcurr st -> dcurr st <= length buf -> dcode st = 0 ->
+  (dmsg st = Some (dlen st) \/ (dmsg st = None /\ dlen st = 0)) ->
+  skipn (dcurr st) buf = body ++ 0%N :: tl -> sdec v body = Some m ->
+  length body + 16 <= dcurr st - (dpos st + dlen st) ->
+  let '(r, st', buf') := dec_call_res v st buf frags res false in
+  r = DMsg /\ decoded st' buf' = m /\ dmsg st' = Some (length m) /\
+  dcurr st' = dcurr st + length body + 1 /\ skipn (dcurr st') buf' = tl.
+Proof.
+  intros G1 G2 Hcode Hmsg Hun Hs Hgap.
+  assert (Hc : cinv v [] st buf).
+  { unfold cinv. split; [assumption|]. split; [assumption|].
+    destruct Hmsg as [Hm|[Hm Hl]]; rewrite Hm; [auto|]. rewrite Hcode. cbn [Nat.eqb]. auto. }
+  pose proof (sdec_nozero v body m Hs) as Hnz.
+  destruct body as [|c0 rest]; [cbv in Hs; discriminate|].
+  rewrite nozero_cons in Hnz. apply andb_prop in Hnz. destruct Hnz as [Hc0 Hnzr].
+  apply Bool.negb_true_iff in Hc0. pose proof (bn_pos c0 Hc0) as Hbn.
+  cbn [app] in Hun.
+  destruct (dec_regular_fresh v st buf frags res c0 (rest ++ 0%N :: tl) G1 G2 Hcode Hmsg Hun ltac:(lia))
+    as (post & Hp15 & Hpp & Heq).
+  pose proof (dec_complete_sdec v (c0 :: rest) m c0 rest tl
+                (dcurr st - (dpos st + dlen st) - post + 1) 1 Hs eq_refl ltac:(cbn [length] in *; lia)) as Hdel.
+  pose proof (dec_regular_honest v [] st buf frags res Hc) as Hreg.
+  pose proof (dec_call_honest v [] st buf frags res Hc) as Hcall.
+  unfold dec_call_res in *. rewrite Heq in *. unfold call_result in *.
+  set (r := dec_loop v false (rest ++ 0%N :: tl) (bn c0) 0 (dcurr st - (dpos st + dlen st) - post + 1) [] 1) in *.
+  assert (Hfinal : forall st' buf', call_post v [] (dcurr st) buf DMsg st' buf' ->
+            decoded st' buf' = m /\ dmsg st' = Some (length m) /\
+            dcurr st' = dcurr st + length (c0 :: rest) + 1 /\ skipn (dcurr st') buf' = tl).
+  { intros st' buf' (k & body' & Hk & Hcur & Hlen & Hsk & Hb & Hsd & Hc' & Hm').
+    cbn [app] in Hb. rewrite Hun in *.
+    assert (E : (c0 :: rest) ++ 0%N :: tl = body' ++ 0%N :: skipn k (c0 :: rest ++ 0%N :: tl)).
+    { pose proof (firstn_skipn k (c0 :: rest ++ 0%N :: tl)) as E0. rewrite Hb, <- app_assoc in E0.
+      symmetry. exact E0. }
+    destruct (nozero_split_unique _ _ _ _ ltac:(rewrite nozero_cons, Hc0, Hnzr; reflexivity)
+                (sdec_nozero v body' _ Hsd) E) as [Eb Et].
+    subst body'. rewrite Hs in Hsd. inversion Hsd as [Hd]. split; [reflexivity|].
+    assert (Hk' : k = length (c0 :: rest) + 1).
+    { apply (f_equal (@length _)) in Hb. rewrite firstn_length, app_length in Hb. cbn [length] in *. lia. }
+    destruct Hc' as (Gc1 & Gc2 & _).
+    split.
+    - rewrite Hm'. f_equal. unfold decoded. rewrite firstn_length, skipn_length. lia.
+    - split; [lia|]. rewrite Hsk, Hcur. rewrite <- skipn_skipn'. rewrite Hun. symmetry. exact Et. }
+  destruct Hdel as [[Hlr Hout]|(Hinl & Hlr & Hout & Hlt)].
+  - rewrite Hlr in *. destruct (inl v); (split; [reflexivity|]); apply Hfinal; exact Hcall.
+  - rewrite Hlr, Hinl in *. cbn [dcode dpos dlen dcurr] in *.
+    assert (Hcn : lcode r <> 0).
+    { intros E0. rewrite E0 in Hlt. unfold len_data in Hlt. destruct (zpe v); [destruct (0 <=? maxlen v)|]; cbn in Hlt; lia. }
+    destruct (Nat.eqb_spec (lcode r) 0); [contradiction|].
+    destruct Hreg as [_ Hmd]. cbn [md_post dcode] in Hmd. specialize (Hmd Hcn). cbn zeta in Hmd.
+    destruct Hmd as (k & Hk & Hcur & Hlen & _ & Hgeo & _). cbn [dcurr dpos dlen] in *.
+    rewrite skipn_length in Hk.
+    destruct (Nat.leb_spec (length (splice buf (dpos st + dlen st + post + 0) (lout r)))
+                           (dpos st + dlen st + post + (0 + length (lout r)))) as [Hno|_]; [lia|].
+    split; [reflexivity|]. apply Hfinal. exact Hcall.
+Qed.
